@@ -21,19 +21,42 @@ Definition replay_ok (c : c15_case) (e : gty * list rcall * value) : bool :=
   | _ => false
   end.
 
+(** which components are enum-typed is decided by the enum detection (C10): the node kinds observed must be those
+    the model of the detection gives on the facts of the program *)
+Definition enum_kinds_agree (c : c15_case) : bool :=
+  let model_enums := match fetch_enums (c15_prog c) with Ok l => l | _ => [] end in
+  forallb (fun n => match nr_at n with
+                    | GNamed id => Bool.eqb (akind_eqb (nr_kind n) KdEnum) (existsb (fun e => String.eqb (en_id e) id) model_enums)
+                    | _ => true end) (ao_nodes (c15_ana c)).
+
 Definition chk (c : c15_case) : bool :=
   let nodes := ao_nodes (c15_ana c) in
+  enum_kinds_agree c &&
   (* [returns] evaluated level by level (Properties/C15.v: C15_levels_compute_returns), under its two premises *)
   calls_closed nodes
   && forallb (fun tb => existsb (gty_eqb (fst tb)) (positions nodes)
                         && Bool.eqb (returns_level nodes (S (List.length nodes)) (fst tb)) (snd tb)) (c15_runs c)
   && forallb (replay_ok c) (c15_vals c).
 
-(** the property itself: every function returned, and every value returned is well-formed *)
+(** the observed nodes, with the enum-typed positions being those the enum detection model (C10) finds in the facts *)
+Definition model_enums (c : c15_case) : list enum := match fetch_enums (c15_prog c) with Ok l => l | _ => [] end.
+Definition nodes_by_model (c : c15_case) : list nrec :=
+  map (fun n => match nr_at n, nr_kind n with
+                | GNamed id, (KdNamed | KdEnum) =>
+                    if existsb (fun e => String.eqb (en_id e) id) (model_enums c)
+                    then {| nr_at := nr_at n; nr_kind := KdEnum; nr_self := nr_self n; nr_len := nr_len n; nr_bkind := nr_bkind n;
+                            nr_is_date := nr_is_date n; nr_children := nr_children n; nr_fields := nr_fields n; nr_comments := nr_comments n;
+                            nr_implements := nr_implements n; nr_members := nr_members n; nr_in_types := nr_in_types n |}
+                    else n
+                | _, _ => n end) (ao_nodes (c15_ana c)).
+
+(** the property itself: every function returned, and every value returned is well-formed - for the enums of the
+    observed analysis and for those of the facts *)
 Definition chk_prop (c : c15_case) : bool :=
   forallb snd (c15_runs c)
   && forallb (fun e : gty * list rcall * value => let '(t, _, v) := e in
-                wf (c15_prog c) (ao_nodes (c15_ana c)) (c15_enums c) (depth_fuel c) t v) (c15_vals c).
+                wf (c15_prog c) (ao_nodes (c15_ana c)) (c15_enums c) (depth_fuel c) t v
+                && wf (c15_prog c) (nodes_by_model c) (model_enums c) (depth_fuel c) t v) (c15_vals c).
 
 (** replay detail: the values on which the model and the real function disagree, with what the model rebuilt *)
 Definition details (cases : list c15_case) : list (list (gty * option value * nat * bool)) :=
